@@ -231,174 +231,251 @@ def run(rep):
     mutators.prune(rep, 'R09.3', mod, 'unregister')
     mutators.prune(rep, 'R09.3', mod, 'unsubscribe')
 
-    # ---- R09.4 --------------------------------------------------------------
-    rb = find_def(mod, 'BaseAdapterRegistry.rebuild', raw=True)
-    cfg = cfg_of(rb)
-    initn = nodes_with(cfg, 'self.__init__($$a)')
+    # ---- R09.4 (over path summaries) ----------------------------------------------------
+    rb = find_def(mod, 'BaseAdapterRegistry.rebuild')
+    REG, SUB = 'self.allRegistrations()', 'self.allSubscriptions()'
 
-    def starter(name):
-        """a helper (nested, module-level or method) that advances its
-        iterator argument with next() and chains the first item back"""
-        cands = [n for n in ast.walk(mod) if isinstance(n, ast.FunctionDef) and n.name == name]
+    def starter_ok(hname):
+        """helper H(it): advances `it` once with next(); StopIteration -> an
+        empty iterator; otherwise the first item chained in front of `it`"""
+        cands = [n for n in ast.walk(mod) if isinstance(n, ast.FunctionDef)
+                 and n.name == hname]
         for h in cands:
-            if not h.args.args:
+            ps_h = [a_.arg for a_ in h.args.args if a_.arg not in ('self', 'cls')]
+            if len(ps_h) != 1:
                 continue
-            p = h.args.args[-1].arg if h.args.args[0].arg in ('self', 'cls') else h.args.args[0].arg
-            nx = find_all(h, 'next(%s)' % p)
-            rr = sorted(norm_src(r.value) for r in ast.walk(h) if isinstance(r, ast.Return))
-            first = [n.targets[0].id for n in ast.walk(h) if isinstance(n, ast.Assign)
-                     and isinstance(n.targets[0], ast.Name)
-                     and match('next(%s)' % p, n.value) is not None]
-            if nx and first and rr == sorted(['iter(())', 'itertools.chain((%s,), %s)'
-                                              % (first[0], p)]):
+            p_ = ps_h[0]
+            good, kinds_ = True, set()
+            for ps in _sem.summaries(h, normal_only=False):
+                if ps.kind == 'raise' and ps.ret_node is None:
+                    continue
+                nx = [e for e in ps.events if e.kind == 'call' and
+                      _sem.nt(e.r) == 'next(%s)' % p_]
+                r = _sem.nt(ps.ret)
+                if ps.facts.get('EXCEPT(StopIteration)'):
+                    kinds_.add('empty')
+                    good = good and r in ('iter(())', 'iter([])') and len(nx) == 1
+                else:
+                    kinds_.add('chain')
+                    good = good and len(nx) == 1 and r in (
+                        'itertools.chain((next(%s),), %s)' % (p_, p_),
+                        'itertools.chain([next(%s)], %s)' % (p_, p_))
+            if good and kinds_ == {'empty', 'chain'}:
                 return True
         return False
-    ok = len(initn) == 1
-    detail = 'self.__init__ calls: %d' % len(initn)
-    if ok:
-        init = initn[0]
-        started = {}
-        for kind, src in (('registrations', 'self.allRegistrations()'),
-                          ('subscriptions', 'self.allSubscriptions()')):
-            good = False
-            for n in cfg.nodes:
-                if not isinstance(n.ast, ast.Assign) or not isinstance(n.ast.value, ast.Call):
-                    continue
-                c = n.ast.value
-                callee = c.func.id if isinstance(c.func, ast.Name) else (
-                    c.func.attr if isinstance(c.func, ast.Attribute) else None)
-                if callee and len(c.args) == 1 and starter(callee):
-                    from ..facts import resolve
-                    arg = resolve(cfg, n, c.args[0])
-                    if match(src, arg) is not None and cfg.dominated_by(init, lambda m, n=n: m is n):
-                        tgt = n.ast.targets[0].id if isinstance(n.ast.targets[0], ast.Name) else None
-                        started[kind] = tgt
-                        good = True
-            if not good:
-                started[kind] = None
-        ok = all(started.values())
-        detail = ('both iterators are created from the live storage and advanced '
-                  '(next() via a buffering helper) before self.__init__ replaces '
-                  'it: %s' % started)
-    rep.check('R09.4', 'BaseAdapterRegistry.rebuild', ok, detail,
-              construct='buffer-before-init', node=rb)
-    if initn:
-        c = find_all(header_expr(initn[0]), 'self.__init__($$a)')[0]
-        rep.check('R09.4', 'BaseAdapterRegistry.rebuild',
-                  match('self.__init__(self.__bases__)', c[0]) is not None,
-                  're-initialises with the current bases: %s' % norm_src(c[0]),
-                  construct='init-args', node=rb)
-    okl = True
-    dl = []
-    if ok:
-        for kind, call in (('registrations', 'self.register(*VAR)'),
-                           ('subscriptions', 'self.subscribe(*VAR)')):
-            lps = [lp for lp in walk_local(rb) if isinstance(lp, ast.For)
-                   and isinstance(lp.iter, ast.Name) and lp.iter.id == started[kind]]
-            good = False
-            for lp in lps:
-                v = lp.target.id if isinstance(lp.target, ast.Name) else '_'
-                cs = find_all(lp, call.replace('VAR', v))
-                exits = [n for n in walk_local(lp) if isinstance(
-                    n, (ast.Break, ast.Return, ast.Continue))]
-                after = cfg.node_of(lp).id in cfg.reach(initn[0])
-                good = bool(cs) and not exits and bool(after)
-            dl.append((kind, good))
-            okl = okl and good
-    else:
-        okl = False
-    rep.check('R09.4', 'BaseAdapterRegistry.rebuild', okl,
-              'after re-initialisation every buffered entry is replayed: %s' % dl,
-              construct='replay', node=rb)
+    p_buf, p_init, p_rep = [], [], []
+    both = 0
+    for ps in _sem.normal(_sem.summaries(rb)):
+        inits = [i for i, e in enumerate(ps.events) if e.kind == 'call'
+                 and _sem.nt(e.r.func) == 'self.__init__']
+        if len(inits) != 1:
+            p_init.append('self.__init__ called %d times' % len(inits))
+            continue
+        ii = inits[0]
+        if _sem.nt(ps.events[ii].r) != 'self.__init__(self.__bases__)':
+            p_init.append('re-initialised as `%s`' % _sem.nt(ps.events[ii].r)[:60])
+        buffered = {}
+        for what, src in (('registrations', REG), ('subscriptions', SUB)):
+            made = [i for i, e in enumerate(ps.events) if e.kind == 'call'
+                    and _sem.nt(e.r) == src]
+            if not made or made[0] > ii:
+                p_buf.append('%s iterator not created from the live storage before '
+                             're-initialisation' % what)
+                continue
+            # advanced before init: directly, or through a verified helper
+            adv = [i for i, e in enumerate(ps.events[:ii]) if e.kind == 'call'
+                   and _sem.nt(e.r) == 'next(%s)' % src]
+            via = [e for e in ps.events[:ii] if e.kind == 'call' and
+                   [_sem.nt(x) for x in e.r.args] == [src] and not e.r.keywords
+                   and _sem.nt(e.r.func) not in ('next', 'iter', 'list', 'tuple')]
+            if adv:
+                buffered[what] = 'itertools.chain((next(%s),), %s)' % (src, src)
+            elif via and starter_ok((dotted(via[0].r.func) or '').split('.')[-1]):
+                buffered[what] = _sem.nt(via[0].r)
+            elif via and dotted(via[0].r.func) in ('list', 'tuple'):
+                buffered[what] = _sem.nt(via[0].r)
+            else:
+                lst = [e for e in ps.events[:ii] if e.kind == 'call' and
+                       _sem.nt(e.r) in ('list(%s)' % src, 'tuple(%s)' % src)]
+                if lst:
+                    buffered[what] = _sem.nt(lst[0].r)
+                else:
+                    p_buf.append('%s iterator not advanced (next()) before '
+                                 're-initialisation: a lazy walk would start on the '
+                                 'new, empty storage' % what)
+        conds = [c for c, t, p in ps.order if not c.startswith(('ITER(', 'EXCEPT('))]
+        if conds:
+            p_rep.append('replay depends on `%s`' % conds[0][:60])
+        reg_calls = [(i, e) for i, e in enumerate(ps.events) if e.kind == 'call'
+                     and _sem.nt(e.r.func) == 'self.register']
+        sub_calls = [(i, e) for i, e in enumerate(ps.events) if e.kind == 'call'
+                     and _sem.nt(e.r.func) == 'self.subscribe']
+        for calls_, what in ((reg_calls, 'registrations'), (sub_calls, 'subscriptions')):
+            for i, e in calls_:
+                a_ = [_sem.nt(x) for x in e.r.args]
+                if i < ii:
+                    p_rep.append('%s replayed before re-initialisation' % what)
+                if what in buffered and a_ != ['*EACH(%s)' % buffered[what]]:
+                    p_rep.append('%s replayed as `%s`' % (what, _sem.nt(e.r)[:80]))
+        if reg_calls and sub_calls:
+            both += 1
+    for lp in walk_local(rb):
+        if isinstance(lp, ast.For) and [x for x in walk_local(lp) if isinstance(
+                x, (ast.Break, ast.Continue, ast.Return))]:
+            p_rep.append('a replay loop can end early')
+    if not both:
+        p_rep.append('no path replays both registrations and subscriptions')
+    rep.check('R09.4', 'BaseAdapterRegistry.rebuild', not p_buf,
+              'both iterators are created from the live storage and advanced '
+              '(next(), directly or through a helper that chains the first item '
+              'back) before self.__init__ replaces it' if not p_buf else
+              {'problems': sorted(set(p_buf))[:3]}, construct='buffer-before-init',
+              node=rb)
+    rep.check('R09.4', 'BaseAdapterRegistry.rebuild', not p_init,
+              're-initialises once, with the current bases' if not p_init else
+              {'problems': sorted(set(p_init))[:3]}, construct='init-args', node=rb)
+    rep.check('R09.4', 'BaseAdapterRegistry.rebuild', not p_rep,
+              'after re-initialisation every buffered entry is replayed through '
+              'register / subscribe' if not p_rep else
+              {'problems': sorted(set(p_rep))[:3]}, construct='replay', node=rb)
 
-    # ---- R09.5 --------------------------------------------------------------
-    from ..facts import guarded
+    # ---- R09.5 (over path summaries) ----------------------------------------
+    def yields_of(ps):
+        return [e for e in ps.events if e.kind in ('yield', 'yieldfrom')]
+
+    def zero_fact(ps, v):
+        """is `v == 0` decided on this path?"""
+        for txt, val in ((v + ' == 0', True), (v + ' != 0', False), (v, False),
+                         (v + ' < 1', True), (v + ' > 0', False), (v + ' >= 1', False),
+                         (v + ' <= 0', True)):
+            f = ps.facts.get(txt)
+            if f is not None:
+                return f == val
+        return None
     ak = find_def(mod, 'BaseAdapterRegistry._allKeys')
     ps_ = shared.params(ak)
     rep.require(len(ps_) == 4, '_allKeys signature %s' % ps_)
     comp, i_n, pk = ps_[1], ps_[2], ps_[3]
-    cfga = cfg_of(ak)
-    ys = [n for n in cfga.nodes if n.ast is not None and header_expr(n) is not None and
-          any(isinstance(x, ast.Yield) for x in ast.walk(header_expr(n)))]
-    yf = [n for n in cfga.nodes if n.ast is not None and header_expr(n) is not None and
-          any(isinstance(x, ast.YieldFrom) for x in ast.walk(header_expr(n)))]
-    okb = bool(ys) and all(guarded(cfga, n, '%s == 0' % i_n, True) for n in ys)
-    okr = bool(yf) and all(guarded(cfga, n, '%s == 0' % i_n, False) for n in yf)
-    okshape = False
-    for n in ys:
-        y = [x for x in ast.walk(header_expr(n)) if isinstance(x, ast.Yield)][0]
-        from ..facts import resolve
-        v = y.value
-        if isinstance(v, ast.Tuple) and len(v.elts) == 2:
-            kexpr = resolve(cfga, n, v.elts[0])
-            okshape = match('%s + ($k,)' % pk, kexpr) is not None
-    okrec = False
-    for n in yf:
-        y = [x for x in ast.walk(header_expr(n)) if isinstance(x, ast.YieldFrom)][0]
-        c = y.value
-        if isinstance(c, ast.Call) and len(c.args) == 3:
-            a1 = resolve(cfga, n, c.args[1])
-            a2 = resolve(cfga, n, c.args[2])
-            okrec = match('%s - 1' % i_n, a1) is not None and \
-                match('%s + ($k,)' % pk, a2) is not None
-    its = [lp for lp in walk_local(ak) if isinstance(lp, ast.For)
-           and match('%s.items()' % comp, lp.iter) is not None]
-    rep.check('R09.5', 'BaseAdapterRegistry._allKeys',
-              okb and okr and okshape and okrec and bool(its),
+    E = 'EACH(%s.items())' % comp
+    KEY = '%s + (%s[0],)' % (pk, E)
+    want_leaf = '(%s, %s[1])' % (KEY, E)
+    want_rec = ['%s._allKeys(%s[1], %s - 1, %s)' % (o, E, i_n, KEY)
+                for o in (ps_[0], 'self', 'BaseAdapterRegistry', 'type(self)')]
+    bad, seen_k = [], set()
+    for ps in _sem.normal(_sem.summaries(ak)):
+        ys = yields_of(ps)
+        looped = ps.facts.get('ITER(%s.items())' % comp)
+        if not looped:
+            if ys:
+                bad.append('yields outside the walk over %s.items()' % comp)
+            continue
+        if len(ys) != 1:
+            bad.append('%d yields for one item of %s.items()' % (len(ys), comp))
+            continue
+        z = zero_fact(ps, i_n)
+        y = ys[0]
+        if y.kind == 'yield':
+            seen_k.add('leaf')
+            if z is not True:
+                bad.append('yields a (key, value) pair where %s == 0 is not established'
+                           % i_n)
+            if _sem.nt(y.r) != want_leaf:
+                bad.append('at depth 0 yields `%s`' % _sem.nt(y.r)[:80])
+        else:
+            seen_k.add('rec')
+            if z is not False:
+                bad.append('recurses where %s != 0 is not established' % i_n)
+            if _sem.nt(y.r) not in want_rec:
+                bad.append('recurses as `%s`' % _sem.nt(y.r)[:100])
+    if seen_k != {'leaf', 'rec'}:
+        bad.append('needs both a depth-0 yield and a recursive step (found %s)'
+                   % sorted(seen_k))
+    rep.check('R09.5', 'BaseAdapterRegistry._allKeys', not bad,
               'at depth 0 yields (parent key + (k,), value); otherwise recurses '
-              'with depth - 1 and the extended key, over components.items() '
-              '(%s/%s/%s/%s)' % (okb, okr, okshape, okrec), construct='depth', node=ak)
+              'with depth - 1 and the extended key, over components.items()'
+              if not bad else {'problems': sorted(set(bad))[:3]},
+              construct='depth', node=ak)
     ae = find_def(mod, 'BaseAdapterRegistry._all_entries')
-    lps = [lp for lp in walk_local(ae) if isinstance(lp, ast.For)
-           and match('enumerate(byorder)', lp.iter) is not None]
-    ok = len(lps) == 1
-    detail = 'enumerate(byorder) loops: %d' % len(lps)
-    if ok:
-        lp = lps[0]
-        iv = lp.target.elts[0].id
-        cv = lp.target.elts[1].id
-        okk = bool(find_all(lp, 'self._allKeys(%s, %s + 1)' % (cv, iv)))
-        cfge = cfg_of(ae)
-        yn = [n for n in cfge.nodes if n.ast is not None and header_expr(n) is not None and
-              any(isinstance(x, ast.Yield) for x in ast.walk(header_expr(n)))]
-        oks = False
-        got = None
-        if len(yn) == 1:
-            y = [x for x in ast.walk(header_expr(yn[0])) if isinstance(x, ast.Yield)][0]
-            if isinstance(y.value, ast.Tuple) and len(y.value.elts) == 4:
-                got = [norm_src(resolve(cfge, yn[0], e)) for e in y.value.elts]
-                kv = got[0].split('[')[0]
-                want_req = '%s[:%s]' % (kv, iv)
-                prov_ok = got[1] in ('%s[-2]' % kv, '%s[%s]' % (kv, iv))
-                name_ok = got[2] in ('%s[-1]' % kv, '%s[%s + 1]' % (kv, iv))
-                oks = got[0] == want_req and prov_ok and name_ok
-        ok = okk and oks
-        detail = ('order i: keys from _allKeys(components, i + 1) have length i + 2; '
-                  'yields (key[:i], key[i] (= key[-2]), key[i + 1] (= key[-1]), value): '
-                  '%s (%s/%s)' % (got, okk, oks))
-    rep.check('R09.5', 'BaseAdapterRegistry._all_entries', ok, detail,
+    bp = [p_ for p_ in shared.params(ae) if p_ != 'self']
+    rep.require(len(bp) == 1, '_all_entries signature')
+    bo = bp[0]
+    forms = []
+    for idx, cmp_ in (('EACH(enumerate(%s))[0]' % bo, 'EACH(enumerate(%s))[1]' % bo),
+                      ('EACH(range(len(%s)))' % bo, '%s[EACH(range(len(%s)))]' % (bo, bo))):
+        for o in ('self', 'type(self)', 'BaseAdapterRegistry'):
+            K = 'EACH(%s._allKeys(%s, %s + 1))' % (o, cmp_, idx)
+            forms.append((idx, K))
+    bad, n_y = [], 0
+    for ps in _sem.normal(_sem.summaries(ae)):
+        ys = yields_of(ps)
+        inner = [c for c, t, p_ in ps.order if c.startswith('ITER(') and '_allKeys' in c
+                 and t]
+        if not inner:
+            if ys:
+                bad.append('yields outside the walk over _allKeys')
+            continue
+        if len(ys) != 1 or ys[0].kind != 'yield':
+            bad.append('%d yields for one (key, value) of _allKeys' % len(ys))
+            continue
+        n_y += 1
+        got = _sem.nt(ys[0].r)
+        okf = False
+        for idx, K in forms:
+            for prov in ('%s[0][-2]' % K, '%s[0][%s]' % (K, idx)):
+                for nm in ('%s[0][-1]' % K, '%s[0][%s + 1]' % (K, idx)):
+                    if got == '(%s[0][:%s], %s, %s, %s[1])' % (K, idx, prov, nm, K):
+                        okf = True
+        if not okf:
+            bad.append('yields `%s`' % got[:160])
+    if not n_y:
+        bad.append('no path yields an entry')
+    rep.check('R09.5', 'BaseAdapterRegistry._all_entries', not bad,
+              'order i: keys from _allKeys(components, i + 1) have length i + 2; '
+              'yields (key[:i], key[i] (= key[-2]), key[i + 1] (= key[-1]), value)'
+              if not bad else {'problems': sorted(set(bad))[:3]},
               construct='slices', node=ae)
     ar = find_def(mod, 'BaseAdapterRegistry.allRegistrations')
-    rep.check('R09.5', 'BaseAdapterRegistry.allRegistrations',
-              bool(find_all(ar, 'yield from self._all_entries(self._adapters)', 'exec')),
-              'enumerates self._adapters', construct='source', node=ar)
+    SRC = 'self._all_entries(self._adapters)'
+    bad, n_y = [], 0
+    for ps in _sem.normal(_sem.summaries(ar)):
+        ys = yields_of(ps)
+        if len(ys) == 1 and ys[0].kind == 'yieldfrom' and _sem.nt(ys[0].r) == SRC:
+            n_y += 1
+            continue
+        if ps.facts.get('ITER(%s)' % SRC) and len(ys) == 1 and ys[0].kind == 'yield' \
+                and _sem.nt(ys[0].r) in (
+                    'EACH(%s)' % SRC,
+                    '(%s)' % ', '.join('EACH(%s)[%d]' % (SRC, k) for k in range(4))):
+            n_y += 1
+            continue
+        if ys or not any(c.startswith('ITER(') for c in ps.facts):
+            bad.append('yields %s' % [_sem.nt(y.r)[:60] for y in ys])
+    if not n_y:
+        bad.append('never yields the entries of self._adapters')
+    rep.check('R09.5', 'BaseAdapterRegistry.allRegistrations', not bad,
+              'enumerates self._adapters' if not bad else
+              {'problems': sorted(set(bad))[:3]}, construct='source', node=ar)
     asub = find_def(mod, 'BaseAdapterRegistry.allSubscriptions')
-    lps = [lp for lp in walk_local(asub) if isinstance(lp, ast.For)
-           and match('self._all_entries(self._subscribers)', lp.iter) is not None]
-    ok = len(lps) == 1
-    if ok:
-        inner = [n for n in walk_local(lps[0]) if isinstance(n, ast.For)
-                 and n is not lps[0]]
-        ok = len(inner) == 1 and isinstance(inner[0].iter, ast.Name) and \
-            bool(find_all(inner[0], 'yield (required, provided, %s)'
-                          % inner[0].target.id, 'exec')) and \
-            iter_polarity(inner[0].iter)[1] == 'fwd'
-        tg = [e.id for e in lps[0].target.elts if isinstance(e, ast.Name)]
-        ok = ok and len(tg) == 4 and tg[0] == 'required' and tg[1] == 'provided' \
-            and inner[0].iter.id == tg[3]
-    rep.check('R09.5', 'BaseAdapterRegistry.allSubscriptions', ok,
+    SRC = 'self._all_entries(self._subscribers)'
+    ES = 'EACH(%s)' % SRC
+    want = '(%s[0], %s[1], EACH(%s[3]))' % (ES, ES, ES)
+    bad, n_y = [], 0
+    for ps in _sem.normal(_sem.summaries(asub)):
+        ys = yields_of(ps)
+        if ps.facts.get('ITER(%s)' % SRC) and ps.facts.get('ITER(%s[3])' % ES):
+            if len(ys) != 1 or ys[0].kind != 'yield' or _sem.nt(ys[0].r) != want:
+                bad.append('for a subscriber of a leaf yields %s'
+                           % [_sem.nt(y.r)[:120] for y in ys])
+            else:
+                n_y += 1
+        elif ys:
+            bad.append('yields outside the walk over the leaves')
+    if not n_y:
+        bad.append('never yields a subscription')
+    rep.check('R09.5', 'BaseAdapterRegistry.allSubscriptions', not bad,
               'yields (required, provided, v) for every v of every leaf of '
-              'self._subscribers, in stored order', construct='source', node=asub)
+              'self._subscribers, in stored order' if not bad else
+              {'problems': sorted(set(bad))[:3]}, construct='source', node=asub)
 
     # ---- R09.6 --------------------------------------------------------------
     st = find_all(reg, '$c[name] = value', 'exec')
